@@ -2301,8 +2301,15 @@ class QuicConnection:
                 frame_type=frame_type,
                 reason_phrase=str(exc),
             )
-        if event is not None and (event.data or not was_finished):
-            # a retransmitted FIN must not signal the end of the stream again
+        if event is not None and was_finished:
+            # the stream already ended, by a delivered FIN or by RESET_STREAM: late
+            # data is still handed to the application, but it never signals the
+            # end of the stream (again), a reset stream has no end-of-stream
+            if event.data:
+                event.end_stream = False
+            else:
+                event = None
+        if event is not None:
             self._events.append(event)
         self._local_max_data.used += newly_received
 
